@@ -115,6 +115,90 @@ def _c08():
     }
 
 
+def _simple(harnesses, functions, bounds, outside, stubs=(), assumptions=(), flags=(), pre=(), timeout=None):
+    return {"flags": tuple(flags), "timeout": timeout or {"quick": 900, "thorough": 2400}, "harnesses": harnesses,
+            "functions": list(functions), "bounds": bounds, "stubs": list(stubs), "assumptions": list(assumptions),
+            "outside": outside, "pre": list(pre)}
+
+
+def H(name, bound, tiers=Q, covers=("end",), **kw):
+    d = {"name": name, "bound": bound, "tiers": tiers, "covers": list(covers)}
+    d.update(kw)
+    return d
+
+
+ST = ("-Z", "stubbing")
+RS_STUB = "std::hash::RandomState::new -> fixed keys (Options::default builds an empty HashMap)"
+FMT_STUB = "alloc::fmt::format -> empty string (message text is not the subject)"
+
+
+def _c13():
+    hs = [H("c13::c13b_plain_css_%d" % n, "is_plain_css_import on every ASCII string of %d bytes" % n,
+            tiers=Q if n in (5, 8) else T, covers=("end", "plain", "sass")) for n in (5, 6, 7, 8, 9)]
+    hs += [H("c13::c13c_syntax_sass", "InputSyntax::for_path on a.<sass in any letter case>", tiers=Q),
+           H("c13::c13c_syntax_css", "a.<css in any letter case>", tiers=Q),
+           H("c13::c13c_syntax_scss", "a.<scss in any letter case>", tiers=T),
+           H("c13::c13c_syntax_txt", "a.<txt in any letter case> (defaults to SCSS)", tiers=T),
+           H("c13::c13c_syntax_sas", "a.<sas in any letter case> (defaults to SCSS)", tiers=T)]
+    return _simple(hs, ["utils::is_plain_css_import", "options::InputSyntax::for_path"],
+                   "URLs of 5-9 ASCII bytes; extensions sass/scss/css/txt/sas with a symbolic case mask",
+                   "Visitor::find_import candidate order and Fs confinement (the PathBuf/format! machinery did not finish under "
+                   "CBMC within 10 min; see DESIGN.md), reading/parsing the resolved file, import caching, url()/media modifiers")
+
+
+def _c15():
+    hs = [H("c15::c15a_from_rgba_clamps", "Color::from_rgba / from_rgba_fn on four arbitrary f64 (NaN, infinities included)",
+            covers=("end", "nan_and_large")),
+          H("c15::c15a_opacity_clamps", "with_alpha / fade_in / fade_out: arbitrary base colour and arbitrary f64 amount",
+            covers=("end", "zero_amount")),
+          H("c15::c15d_short_hex_iff_symmetrical", "all 2^24 8-bit colours: 3-digit hex chosen iff every channel has equal nibbles",
+            covers=("end", "short"))]
+    return _simple(hs, ["color::Color::{from_rgba, from_rgba_fn, red, green, blue, alpha, with_alpha, fade_in, fade_out}",
+                        "value::number::Number::{clamp, round}", "serializer::Serializer::{is_symmetrical_hex, can_use_short_hex}"],
+                   "every f64 argument (full width, symbolic); all 8-bit channel triples",
+                   "RGB<->HSL/HWB round trips (about 25 double multiplications/divisions per colour do not finish), the named "
+                   "colour table (phf), lighten/darken/mix identities, compressed-mode spelling choice")
+
+
+def _c16():
+    hs = [H("c16::c16b_paren_rules_%s" % o, "outer operator %s, every inner operator, both operand sides, integer leaves in [-4,4], "
+            "exact rational evaluation" % o, covers=("end", "lhs_unparenthesised")) for o in ("plus", "minus", "mul", "div")]
+    return _simple(hs, ["value::calculation::CalculationArg::parenthesize_calculation_rhs", "common::BinaryOp::precedence "
+                        "(left-operand rule of Serializer::write_calculation_arg)"],
+                   "operation trees of depth 2 over + - * /; leaves integers in [-4,4]",
+                   "the serializer's emission of the text (reaches core::fmt::write, whose fn-pointer dispatch does not finish "
+                   "under CBMC), SassCalculation::{min,max,clamp,operate_internal} (HashSet/Lazy-backed unit compatibility), "
+                   "nested calc flattening, variables/interpolation")
+
+
+def _c18():
+    hs = [H("c18::c18a_lex_ascii_3", "TokenLexer on every 3-byte ASCII source", covers=("end", "crlf_collapsed")),
+          H("c18::c18a_lex_ascii_4", "TokenLexer on every 4-byte ASCII source", covers=("end", "crlf_collapsed")),
+          H("c18::c18a_lex_multibyte", "any code point followed by an ASCII byte", covers=("end", "astral"))]
+    return _simple(hs, ["lexer::TokenLexer::next"],
+                   "sources of 3-4 ASCII bytes; one arbitrary code point + one ASCII byte",
+                   "SCSS/indented/CSS agreement of the statement parsers, BOM/@charset handling, whitespace/comment insertion, "
+                   "`_`/`-` identifier normalisation (see DESIGN.md), Lexer::new_from_* (collect with data-dependent length)")
+
+
+def _c19():
+    hs = [H("c18::c19a_spans_3", "Lexer::{current_span, prev_span, span_from} on 3 arbitrary code points, any cursor, any start",
+            covers=("end", "at_eof", "multibyte")),
+          H("c18::c19a_spans_empty", "the same on an empty token buffer"),
+          H("c18::c18a_lex_ascii_4", "token positions lie inside the token's source bytes and increase strictly",
+            covers=("end", "crlf_collapsed"))]
+    return _simple(hs, ["lexer::Lexer::{span_at_index, span_from, prev_span, current_span}", "codemap::Span::{subspan, merge}",
+                        "lexer::TokenLexer::next (positions)"],
+                   "token buffers of 0 and 3 arbitrary code points",
+                   "@warn/@debug delivery counts and `quiet` (HashSet<Span>-backed de-duplication), error rendering (Display through "
+                   "core::fmt), spans of re-lexed interpolation (is_expanded), stdout/stderr routing")
+
+
 PROPS["C01"] = _c01()
+PROPS["C13"] = _c13()
+PROPS["C15"] = _c15()
+PROPS["C16"] = _c16()
+PROPS["C18"] = _c18()
+PROPS["C19"] = _c19()
 PROPS["C08"] = _c08()
 PROPS["C17"] = _c17()
